@@ -14,4 +14,28 @@ CLAIMS = {
           "Trusted: rustc's HIR/typeck/const-eval; spec/maven.json transcribed from the Maven documentation.",
   "technique": "static analysis: decision-table extraction (pattern-matrix evaluation over const-evaluated patterns) + structural HIR rules",
  },
+ "C18": {
+  "text": "Decides the grammar tables and the type-level discipline behind the descriptor and name types: read_field_type's two terminal tables for "
+          "every printable ASCII code point against JVMS 4.3.2 (accepted terminals -> Type/ArrayType variant, everything else -> error), the inverse "
+          "writer table, V only in return position, the 255-dimension guard dominating the u8 increment, trailing-input rejection in all three parse(), "
+          "'(' / ')' handling; truth-table equivalence of the five name predicates with the documented JVMS 4.2 formulae and of their duke-macros "
+          "siblings; check_valid -> predicate delegation; every TryFrom reaching the unchecked constructor only under check_valid == Ok on the same "
+          "value; classification of all from_inner_unchecked call sites (macro-internal / validated literal / frozen closed conversion / other owner); "
+          "guards of the inner-class split helper and shape of the join helper.",
+  "note": "Not decided: parse(write(x)) == x and write(parse(s)) == s as value-level laws on all structures (declined: needs value reasoning). "
+          "The closed-conversion table (20 entries) is reviewed by hand. Trusted: rustc HIR/typeck/const-eval; spec/jvms_names.json.",
+  "technique": "static analysis: decision-table extraction, boolean truth-table equivalence of predicate structure, guard dominance, who-may-construct (newtype discipline)",
+ },
+ "C07": {
+  "text": "A3 type-directed traversal completeness: for every struct field and enum variant payload of the class tree handled by an impl of "
+          "Mappable/MappableWithClassName (17 struct + 6 enum impls, ~300 cases), decides from duke's ADT table whether the position can contain a "
+          "class/field/method reference and requires it to be produced by the remapping machinery applied to the same-named source position; all other "
+          "positions must be the source position unchanged; constants in output positions are drops. Plus: atom -> BRemapper query table, members "
+          "mapped with the original owner name, generic Option/Vec plumbing, jar entry-name rewrite (.class suffix, map_class, stored under new name), "
+          "non-class entries copied, ClassRepr read table.",
+  "note": "Not decided: that the remapper's answers are right (C06), that the written jar re-opens (zip validity), that duke writes the remapped class "
+          "correctly (C02). 15 recorded findings (unremapped signatures/inner names/annotation names/indy name, dropped module/record/unknown attributes) "
+          "are listed in known_findings.json by exact (type, field) key. Trusted: rustc HIR/typeck; the atom list in rules/c07.py.",
+  "technique": "static analysis: type-directed traversal completeness (ADT reachability + intra-procedural provenance of struct-literal fields and match arms)",
+ },
 }
